@@ -190,6 +190,128 @@ theorem validateShells_iff (val : ν → Rat) (shells : List (Shell ν)) :
   · intro h sh hs; exact (validateShell_iff val sh).1 (h sh hs)
   · intro h sh hs; exact (validateShell_iff val sh).2 (h sh hs)
 
+/-! ## ECP potentials and the element level -/
+
+theorem ite_some_none {ε} (c : Prop) [Decidable c] (e : ε) (x : Option ε) :
+    (if c then some e else x) = none ↔ ¬ c ∧ x = none := by
+  by_cases h : c <;> simp [h]
+
+theorem firstOf_none {ε} (a b : Option ε) : firstOf a b = none ↔ a = none ∧ b = none := by
+  cases a <;> simp [firstOf]
+
+/-- a potential is checked strictly unless it is the single-term potential of the highest momentum -/
+def strictPot (pots : List (Pot ν)) (p : Pot ν) : Prop :=
+  p.rexp.length > 1 ∨ p.am ≠ maxLex (pots.map (·.am))
+
+/-- the documented rules for the ECP potentials of an element -/
+structure ValidPots (val : ν → Rat) (pots : List (Pot ν)) : Prop where
+  /-- no fused potential -/
+  single : ∀ p ∈ pots, ¬ p.am.length > 1
+  /-- one potential per angular momentum -/
+  distinct_am : (pots.map (·.am.headD 0)).Nodup
+  /-- as many Gaussian exponents as r-exponents -/
+  lengths : ∀ p ∈ pots, p.gexp.length = p.rexp.length
+  /-- every coefficient row matches; not all zero when the potential is checked strictly -/
+  columns : ∀ p ∈ pots, ∀ g ∈ p.coefs, g.length = p.rexp.length ∧ (strictPot pots p → ∃ c ∈ g, val c ≠ 0)
+  no_dup_column : ∀ p ∈ pots, (p.coefs.map (·.map val)).Nodup
+  no_unused : ∀ p ∈ pots, strictPot pots p → ∀ r ∈ rowsOf p.coefs, ∃ c ∈ r, val c ≠ 0
+
+theorem strict_bool (pots : List (Pot ν)) (p : Pot ν) :
+    (decide (p.rexp.length > 1) || p.am != maxLex (pots.map (·.am))) = true ↔ strictPot pots p := by
+  unfold strictPot; simp
+
+/-- **the validator model accepts the potentials exactly when they satisfy every documented ECP rule** -/
+theorem validatePots_iff (val : ν → Rat) (pots : List (Pot ν)) : validatePots val pots = none ↔ ValidPots val pots := by
+  unfold validatePots validatePot
+  simp only [ite_some_none, firstErr_none, firstOf_none]
+  constructor
+  · rintro ⟨h1, h2, h3⟩
+    have hs : ∀ p ∈ pots, ¬ p.am.length > 1 := by
+      intro p hp hgt
+      exact h1 (List.any_eq_true.2 ⟨p, hp, by simpa using hgt⟩)
+    have hd : (pots.map (·.am.headD 0)).Nodup := (hasDup_false _).1 (by simpa using h2)
+    refine ⟨hs, hd, fun p hp => ?_, fun p hp g hg => ?_, fun p hp => ?_, fun p hp hst r hr => ?_⟩
+    · have := (h3 p hp).1; simpa using this
+    · obtain ⟨_, hcols, _, _⟩ := h3 p hp
+      obtain ⟨hl, hz⟩ := hcols g hg
+      refine ⟨by simpa using hl, fun hst => ?_⟩
+      have hb := (strict_bool pots p).2 hst
+      have : allZero val g = false := by
+        cases hq : allZero val g with
+        | false => rfl
+        | true => exact absurd (by simp [hb, hq]) hz.1
+      exact (allZero_false val g).1 this
+    · obtain ⟨_, _, hdup, _⟩ := h3 p hp
+      exact (hasDup_false _).1 (by simpa using hdup)
+    · obtain ⟨_, _, _, hun, _⟩ := h3 p hp
+      have hb := (strict_bool pots p).2 hst
+      have hany : (rowsOf p.coefs).any (allZero val) = false := by
+        cases hq : (rowsOf p.coefs).any (allZero val) with
+        | false => rfl
+        | true => exact absurd (by simp [hb, hq]) hun
+      exact (allZero_false val r).1 (List.any_eq_false.1 hany r hr |> fun h => by simpa using h)
+  · intro v
+    refine ⟨?_, ?_, fun p hp => ⟨?_, fun g hg => ⟨?_, ?_, trivial⟩, ?_, ?_, trivial⟩⟩
+    · intro h
+      obtain ⟨p, hp, hgt⟩ := List.any_eq_true.1 h
+      exact v.single p hp (by simpa using hgt)
+    · have := (hasDup_false _).2 v.distinct_am
+      simpa using this
+    · simpa using v.lengths p hp
+    · simpa using (v.columns p hp g hg).1
+    · intro hb
+      simp only [Bool.and_eq_true] at hb
+      obtain ⟨c, hc, hne⟩ := (v.columns p hp g hg).2 ((strict_bool pots p).1 hb.1)
+      have := (allZero_false val g).2 ⟨c, hc, hne⟩
+      rw [this] at hb; exact absurd hb.2 (by simp)
+    · have := (hasDup_false _).2 (v.no_dup_column p hp)
+      simp [this]
+    · intro hb
+      simp only [Bool.and_eq_true] at hb
+      obtain ⟨r, hr, hz⟩ := List.any_eq_true.1 hb.2
+      obtain ⟨c, hc, hne⟩ := v.no_unused p hp ((strict_bool pots p).1 hb.1) r hr
+      have := (allZero_false val r).2 ⟨c, hc, hne⟩
+      rw [this] at hz; cases hz
+
+/-- **element level**: accepted iff the shells are valid and pairwise different, and the potentials (which need an
+electron count) are valid -/
+theorem validateElement_iff [DecidableEq ν] (val : ν → Rat) (shells : Option (List (Shell ν))) (pots : Option (List (Pot ν)))
+    (hasElectrons : Bool) :
+    validateElement val shells pots hasElectrons = none ↔
+      (∀ ss, shells = some ss → (∀ sh ∈ ss, ValidShell val sh) ∧ ss.Nodup)
+      ∧ (∀ ps, pots = some ps → hasElectrons = true ∧ ValidPots val ps) := by
+  unfold validateElement
+  rw [firstOf_none]
+  have hS : ∀ ss : List (Shell ν), firstOf (validateShells val ss) (if hasDup ss then some VErr.dupShell else none) = none
+      ↔ (∀ sh ∈ ss, ValidShell val sh) ∧ ss.Nodup := by
+    intro ss
+    simp only [firstOf_none, ite_some_none, validateShells_iff]
+    constructor
+    · rintro ⟨h1, h2, _⟩; exact ⟨h1, (hasDup_false _).1 (by simpa using h2)⟩
+    · rintro ⟨h1, h2⟩; exact ⟨h1, by simp [(hasDup_false _).2 h2], trivial⟩
+  have hP : ∀ ps : List (Pot ν), (if hasElectrons = false then some VErr.ecpNoElectrons else validatePots val ps) = none
+      ↔ hasElectrons = true ∧ ValidPots val ps := by
+    intro ps
+    simp only [ite_some_none, validatePots_iff]
+    cases hasElectrons <;> simp
+  cases shells with
+  | none =>
+    cases pots with
+    | none => simp
+    | some ps => simp [hP]
+  | some ss =>
+    cases pots with
+    | none => simp [hS]
+    | some ps => simp [hS, hP]
+
+theorem reject_ecp_without_electrons [DecidableEq ν] (val : ν → Rat) (shells : Option (List (Shell ν))) (ps : List (Pot ν)) :
+    validateElement val shells (some ps) false ≠ none := fun h =>
+  absurd (((validateElement_iff val shells (some ps) false).1 h).2 ps rfl).1 (by simp)
+
+theorem reject_duplicate_shell [DecidableEq ν] (val : ν → Rat) (ss : List (Shell ν)) (pots : Option (List (Pot ν))) (e : Bool)
+    (h : ¬ ss.Nodup) : validateElement val (some ss) pots e ≠ none := fun hv =>
+  h (((validateElement_iff val (some ss) pots e).1 hv).1 ss rfl).2
+
 end
 
 /-! non-vacuity: a valid shell and six single-rule mutations of it -/
@@ -205,6 +327,17 @@ def m6 : Shell String := { good with coefs := [["0.5", "0.0"], ["1.0", "0.0"]] }
 
 example : [good, m1, m2, m3, m4, m5, m6].map (validateShell numVal)
     = [none, some VErr.needTag, some VErr.dupExp, some VErr.nonposExp, some VErr.zeroCol, some VErr.dupCol, some VErr.unusedPrim] := by
+  decide +kernel
+
+def goodPots : List (Pot String) :=
+  [{ am := [1], ptype := "scalar_ecp", rexp := [2], gexp := ["1.0"], coefs := [["0.0"]] },
+   { am := [0], ptype := "scalar_ecp", rexp := [2, 2], gexp := ["1.0", "2.0"], coefs := [["3.0", "-1.0"]] }]
+def p1 : List (Pot String) := goodPots ++ [{ am := [0], ptype := "scalar_ecp", rexp := [2], gexp := ["1.0"], coefs := [["1.0"]] }]
+def p2 : List (Pot String) := [{ am := [0], ptype := "scalar_ecp", rexp := [2, 2], gexp := ["1.0", "2.0"], coefs := [["0.0", "0.0"]] }]
+def p3 : List (Pot String) := [{ am := [0], ptype := "scalar_ecp", rexp := [2, 2], gexp := ["1.0"], coefs := [["1.0", "2.0"]] }]
+
+/-- the all-zero single-term potential of the highest momentum is accepted (the rule's exception); three mutations are not -/
+example : [goodPots, p1, p2, p3].map (validatePots numVal) = [none, some VErr.ecpDupAm, some VErr.ecpZeroCol, some VErr.ecpLen] := by
   decide +kernel
 
 end BSE.Props.C18
